@@ -32,10 +32,7 @@ def fixedSize (t : UInt8) : Nat :=
 
 /-- a string/binary: 4-byte big-endian length < 2^31, then that many bytes -/
 def refStr (b : Bytes) : Option Nat :=
-  if 4 ≤ b.length then
-    let n := rd32 b
-    if n < 2147483648 ∧ 4 + n ≤ b.length then some (4 + n) else none
-  else none
+  if 4 ≤ b.length ∧ rd32 b < 2147483648 ∧ 4 + rd32 b ≤ b.length then some (4 + rd32 b) else none
 
 /-- n values in a row, each measured by `f`; total length -/
 def refN (f : Bytes → Option Nat) : Nat → Bytes → Option Nat
@@ -79,28 +76,31 @@ def refFields (f : UInt8 → Bytes → Option Nat) : Nat → Bytes → Option Na
           | none => none
           | some r => some (3 + k + r)
 
+/-- one level of the grammar: a value of type t whose elements / fields are measured by `E` -/
+def layer (E : UInt8 → Bytes → Option Nat) (t : UInt8) (b : Bytes) : Option Nat :=
+  if fixedSize t > 0 then
+    if fixedSize t ≤ b.length then some (fixedSize t) else none
+  else if t = TT.STRING then refStr b
+  else if t = TT.STRUCT then refFields E (b.length + 1) b
+  else if t = TT.LIST ∨ t = TT.SET then
+    match b with
+    | et :: rest =>
+      if 4 ≤ rest.length ∧ rd32 rest < 2147483648 then
+        (refN (E et) (rd32 rest) (rest.drop 4)).map (5 + ·)
+      else none
+    | [] => none
+  else if t = TT.MAP then
+    match b with
+    | kt :: vt :: rest =>
+      if 4 ≤ rest.length ∧ rd32 rest < 2147483648 then
+        (refKV (E kt) (E vt) (rd32 rest) (rest.drop 4)).map (6 + ·)
+      else none
+    | _ => none
+  else none
+
 def refLen : Nat → UInt8 → Bytes → Option Nat
   | 0, _, _ => none
-  | d+1, t, b =>
-    if fixedSize t > 0 then
-      if fixedSize t ≤ b.length then some (fixedSize t) else none
-    else if t = TT.STRING then refStr b
-    else if t = TT.STRUCT then refFields (refLen d) (b.length + 1) b
-    else if t = TT.LIST ∨ t = TT.SET then
-      match b with
-      | et :: rest =>
-        if 4 ≤ rest.length ∧ rd32 rest < 2147483648 then
-          (refN (refLen d et) (rd32 rest) (rest.drop 4)).map (5 + ·)
-        else none
-      | [] => none
-    else if t = TT.MAP then
-      match b with
-      | kt :: vt :: rest =>
-        if 4 ≤ rest.length ∧ rd32 rest < 2147483648 then
-          (refKV (refLen d kt) (refLen d vt) (rd32 rest) (rest.drop 4)).map (6 + ·)
-        else none
-      | _ => none
-    else none
+  | d+1, t, b => layer (refLen d) t b
 
 /-- well-formed at *some* depth: fuel b.length + 1 levels suffice (every level costs ≥ 1 byte) -/
 def refLenAny (t : UInt8) (b : Bytes) : Option Nat := refLen (b.length + 1) t b
